@@ -120,6 +120,7 @@ class Explorer:
         self._try_depth = 0
         self._dropped = 0  # paths that ended in a certain exception
         self.enter_with = enter_with
+        self.split_conditionals = False  # fork a path at an undecided conditional expression inside a value
         self.outcomes: List[Outcome] = []
         self.envs: List[Dict[str, Any]] = []  # environment of each outcome, same order
 
@@ -352,6 +353,9 @@ class Explorer:
         return items
 
     def test(self, t: ast.expr, env: Dict[str, Any]) -> Optional[bool]:
+        assumed = env.get("$assume")
+        if assumed and id(t) in assumed:
+            return assumed[id(t)]
         o = self.oracle(t, env)
         if o is not None:
             return o
@@ -406,6 +410,17 @@ class Explorer:
                 return self.test(t.orelse, env)
             a_, b_ = self.test(t.body, env), self.test(t.orelse, env)
             return a_ if a_ == b_ else None
+        if (isinstance(t, ast.Compare) and len(t.ops) == 1 and isinstance(t.ops[0], (ast.Is, ast.IsNot)) and isinstance(t.comparators[0], ast.Constant)
+                and t.comparators[0].value is None):
+            lhs = t.left
+            if isinstance(lhs, ast.IfExp):
+                c_ = self.test(lhs.test, env)
+                if c_ is not None:
+                    lhs = lhs.body if c_ else lhs.orelse
+            if isinstance(lhs, ast.Call) and isinstance(lhs.func, ast.Name) and lhs.func.id in (
+                    "int", "str", "float", "len", "bool", "list", "tuple", "dict", "set", "frozenset") and lhs.func.id not in env:
+                self.value(lhs, env)  # the call is made (hooks see it); its result is never None
+                return isinstance(t.ops[0], ast.IsNot)
         if isinstance(t, ast.Compare) and len(t.ops) == 1:
             a, b = self.value(t.left, env), self.value(t.comparators[0], env)
             if a is UNKNOWN or b is UNKNOWN or isinstance(a, Text) or isinstance(b, Text):
@@ -514,6 +529,17 @@ class Explorer:
                 return [env]
             self.value(s.value, env)
             return [env]
+        if isinstance(s, (ast.Assign, ast.AnnAssign, ast.Return)) and s.value is not None and self.split_conditionals:
+            # a conditional expression inside the value whose test is not decided: one path for each answer
+            for n in ast.walk(s.value):
+                if isinstance(n, ast.IfExp) and self.test(n.test, env) is None:
+                    outs_: List[Dict[str, Any]] = []
+                    for answer in (True, False):
+                        e2 = dict(env)
+                        e2["$assume"] = dict(env.get("$assume") or {}, **{})
+                        e2["$assume"][id(n.test)] = answer
+                        outs_.extend(self.stmt(s, e2))
+                    return outs_
         if isinstance(s, (ast.Assign, ast.AnnAssign)):
             if isinstance(s, ast.AnnAssign) and s.value is None:
                 return [env]
@@ -573,8 +599,10 @@ class Explorer:
                 eh["$handlers"] = tuple(eh.get("$handlers", ())) + (h,)
                 out2.extend(self.block(h.body, eh))
             return out2
-        if isinstance(s, (ast.For, ast.AsyncFor)) and self.enter_loops and not s.orelse and (isinstance(s, ast.For) or self.enter_with):
+        if isinstance(s, (ast.For, ast.AsyncFor)) and self.enter_loops and (isinstance(s, ast.For) or self.enter_with):
             seq = self.value(s.iter, env)
+            if not isinstance(seq, (tuple, list)) and s.orelse:
+                raise AnalysisError(f"partial evaluation of {self.fn.qualname}: for/else over an unknown sequence")
             if isinstance(seq, (tuple, list)) and len(seq) <= 16:  # noqa: PLR2004
                 # a loop over a sequence the path knows: executed item by item
                 live = [env]
@@ -593,6 +621,12 @@ class Explorer:
                     live = nxt_live
                     if len(live) + len(done) > self.max_paths:
                         raise AnalysisError(f"partial evaluation of {self.fn.qualname}: too many paths")
+                if s.orelse:
+                    # `else` of a loop: runs when the loop was not left by `break`
+                    finished: List[Dict[str, Any]] = []
+                    for e0 in live:
+                        finished.extend(self.block(s.orelse, e0))
+                    live = finished
                 return live + done
         if isinstance(s, (ast.For, ast.AsyncFor)) and self.enter_loops and not s.orelse:
             # one symbolic iteration: the loop variables are unknown; zero iterations are possible too
